@@ -289,6 +289,7 @@ impl LineBuffer {
     }
 
     /// Delete previously yanked text and yank/paste `text` at current position.
+    /// Return `None`, with the line untouched, when `text` would not fit in place of the yanked text.
     pub fn yank_pop<C: ChangeListener>(
         &mut self,
         yank_size: usize,
@@ -297,9 +298,14 @@ impl LineBuffer {
     ) -> Option<bool> {
         let end = self.pos;
         let start = end - yank_size;
+        if self.must_truncate(self.buf.len() - yank_size + text.len()) {
+            // the replacement does not fit: refuse before anything is removed
+            return None;
+        }
         self.drain(start..end, Direction::default(), cl);
         self.pos -= yank_size;
-        self.yank(text, 1, cl)
+        // an empty `text` replaces the yanked text by nothing: the line has changed all the same
+        Some(self.yank(text, 1, cl).unwrap_or(false))
     }
 
     /// Move cursor on the left.
